@@ -92,16 +92,14 @@ Qed.
 Print Assumptions c14_sweeps_listed.
 
 (* Missing / inactive price: the oracle returns an error (Model/Market.v, tied by C17), and in
-   every handler of the vault, locker, lend, liquidation and auction modules - except the three
+   every handler of the vault, locker, lend, liquidation and auction modules - except the two
    listed in [price_unverified] - every price call site the handler can reach, and every call on
    the chain to it, checks and returns that error; the failed handler then commits nothing
    (c12_rejected_noop / Lib/Atomic.v).
-   PARTIAL: liquidation.MsgLiquidateBorrow, auction.MsgPlaceDutchLendBid and
-   auctionsV2.MsgPlaceMarketBid are excluded - the translator finds price errors assigned to _ on
-   their paths, resp. a raw GetTwa read whose found flag is discarded (c14_price_unverified_sites;
-   the last one is known finding C14-F1, reproduced on the real code by the matrix run:
-   GuardsCheck.kf_C14_bid_stale_debt_price); a price lookup inside a conditional block is covered by
-   the call-site table, not by [exec]. *)
+   PARTIAL: liquidation.MsgLiquidateBorrow and auction.MsgPlaceDutchLendBid are excluded - the
+   translator finds price errors assigned to _ on their paths (c14_price_unverified_sites); a
+   price lookup inside a conditional block is covered by the call-site table, not by [exec].
+   (A raw GetTwa read whose found flag is discarded counts as such a site: C14-F1, fixed.) *)
 Theorem c14_price_fail_closed_partial :
   (forall t, (match t with Some tw => active tw = false | None => True end) ->
              price_in_force t = Err 1 /\ get_latest t = Err 1) /\
